@@ -254,3 +254,96 @@ def check_slot_records(res, db, lcs) -> int:
           ),
         )
   return n
+
+
+# ------------------------------------------------------------------------------------------------ R-LIVE.6
+# row/slot buffers whose reads are gated in-kernel by a counter that the same flag zeroes (nacon, nefc, ncollision):
+# their liveness is value-dependent and not decided by this rule
+COUNTER_GATED_PREFIXES = ("Data.contact.", "Data.efc.")
+
+def check_flag_conditioned_liveness(res, db, entry: str, allowed: set) -> int:
+  """R-LIVE.6: the field-level live-in analysis treats a definition that MAY run as a kill. Disable/enable flags are the
+  configuration atoms under which that is unsound: for each single flag (DisableBit set / EnableBit set) this rule asks,
+  in three-valued logic over the host path conditions, whether some read of a non-state Data field stays reachable
+  while EVERY earlier definition of that field in the same call becomes unreachable. Then the value read is whatever an
+  earlier call left there. Reads whose field has no definition at all are R-LIVE.1's business, not this rule's."""
+  from .. import effects
+  from ..report import Finding
+  from .r_flags import FlagEnv
+
+  hi = db.trace(entry)
+  effs = effects.trace_effects(db, hi)
+  flags = [("DisableBit." + m, True) for m in db.sm.enums.get("DisableBit", {})] + [("EnableBit." + m, True) for m in db.sm.enums.get("EnableBit", {})]
+  # per field: ordered (index, pc, kind) of definitions and reads
+  defs, reads = {}, {}
+  for i, e in enumerate(effs):
+    for k, kind in e.writes.items():
+      if k.startswith("Data."):
+        defs.setdefault(k, []).append((i, e.ev.pc, kind, e))
+    for k, loc in e.reads.items():
+      if k.startswith("Data."):
+        reads.setdefault(k, []).append((i, e.ev.pc, loc, e))
+  n = 0
+  for flag, val in flags:
+    env = FlagEnv(flag, val)
+    memo = {}
+
+    def dead(pc):
+      r = memo.get(pc)
+      if r is None:
+        r = env.pc_host(pc) is False
+        memo[pc] = r
+      return r
+
+    for k, rs in reads.items():
+      if k in allowed or k not in defs or k.startswith(COUNTER_GATED_PREFIXES):
+        continue
+      ds = defs[k]
+      if not any(dead(pc) for _, pc, _, _ in ds):
+        continue  # the flag kills no definition of this field
+      for i, pc, loc, e in rs:
+        if dead(pc) or k in e.writes:
+          continue  # unreachable read, or an in-place stage (reads what it writes itself)
+        before = [d for d in ds if d[0] < i]
+        if not before:
+          continue
+        hit = all(dead(dpc) for _, dpc, _, _ in before)
+        note = ""
+        if not hit and env.pc_host(pc) is True:
+          # case split on one model-configuration atom of the surviving definitions (e.g. "the model has connect
+          # equalities"): sound only for reads that are *definitely* reachable, so correlated atoms cannot mislead
+          cands = []
+          for _, dpc, _, _ in before:
+            if not dead(dpc):
+              for text, _pol in dpc:
+                for a_ in env.unknown_atoms(text):
+                  if a_ not in cands:
+                    cands.append(a_)
+          for a_ in cands[:8]:
+            for v_ in (True, False):
+              env2 = FlagEnv(flag, val)
+              env2.atoms = {a_: v_}
+              if env2.pc_host(pc) is True and all(env2.pc_host(dpc) is False for _, dpc, _, _ in before):
+                hit = True
+                note = f" and `{a_}` {'true' if v_ else 'false'}"
+                break
+            if hit:
+              break
+        if hit:
+          n += 1
+          name = e.ev.name or e.ev.kind
+          res.ob(
+            False,
+            f"{entry}|{flag}|{k}",
+            Finding(
+              "R-LIVE.6",
+              f"{entry}|{flag}|{k}|read-without-live-definition",
+              f"with {flag} set{note}, every definition of {k} that precedes its read by {name} in {entry.split('.')[-1]}() is unreachable ({', '.join(sorted({(d[3].ev.name or d[3].ev.kind) for d in before}))[:120]}) while the read stays reachable: the value read is left over from an earlier call, so the result is not a function of the integration state",
+              loc,
+            ),
+          )
+          break
+      else:
+        n += 1
+        res.ob(True, f"{entry}|{flag}|{k}")
+  return n
